@@ -178,6 +178,34 @@ def m_pk_next_if(eng, st, fr, t, name, rname, args):
     return out
 
 
+def m_pk_next_if_eq(eng, st, fr, t, name, rname, args):
+    fs = _fill(eng, st, fr, t)
+    if fs is None:
+        return NotImplemented
+    out = []
+    for s2, loc in fs:
+        if loc is None:
+            out.append((s2, TOP))
+            continue
+        item = load(loc.sub(1).sub(0))
+        if isinstance(item, EnumV) and item.name == "None":
+            out.append((s2, mk_option(None)))
+            continue
+        exp = eng.resolve(s2, eng.operand(s2, s2.frames[-1], t["args"][1]))
+        n = 0
+        while isinstance(exp, RefV) and n < 4:
+            exp = eng.resolve(s2, load(Loc(exp.cell, exp.path)))
+            n += 1
+        same = M.struct_eq(eng, s2, item.fields.get(0), exp)
+        if same is True:
+            out.append((s2, _take(eng, s2, loc)))
+        elif same is False:
+            out.append((s2, mk_option(None)))
+        else:
+            out.append((s2, s2.fresh(("next_if_eq-undecided",))))
+    return out
+
+
 def _tok_desc(eng, st, item):
     """Result<Token, ErrorCode> -> ("tok", variant, payload bytes...) | ("err", code)"""
     item = eng.resolve(st, item)
@@ -425,6 +453,7 @@ def engine():
     ms["core::iter::Peekable::peek"] = m_pk_peek
     ms["<core::iter::Peekable<I> as core::iter::Iterator>::next"] = m_pk_next
     ms["core::iter::Peekable::next_if"] = m_pk_next_if
+    ms["core::iter::Peekable::next_if_eq"] = m_pk_next_if_eq
     ms["scpi::tree::command::Command::event"] = m_handler("event")
     ms["scpi::tree::command::Command::query"] = m_handler("query")
     ms["scpi::parser::response::ResponseData::format_response_data"] = m_format_datum
